@@ -179,9 +179,15 @@ package control
 //@   trusted
 //@ func (*ControlPlane).triggerRealDomainProbe
 //@   trusted
+// a sniffed "domain" is IP-like - and then never dialled by name - exactly when, after dropping one pair of enclosing
+// brackets, it parses as an address, or it is host:port whose host (brackets dropped) parses as an address
 //@ func isIPLikeDomain
 //@   vpure
-//@   trusted
+//@   let strp(d string) = (strings.HasPrefix(d, "[") && strings.HasSuffix(d, "]")) ? d[1:len(d)-1] : d
+//@   let isA(d string) = nth(netip.ParseAddr(d), 1) == nil
+//@   ensures domain == "" ==> !result
+//@   ensures domain != "" && isA(strp(domain)) ==> result
+//@   ensures domain != "" && !isA(strp(domain)) ==> (result <==> (nth(net.SplitHostPort(strp(domain)), 2) == nil && isA(strp(nth(net.SplitHostPort(strp(domain)), 0)))))
 
 //@ func (*ControlPlane).ChooseDialTarget
 //@   let portStr() = strconv.Itoa(dst.Port())
